@@ -1026,3 +1026,7 @@ pub fn put_component_one_each<C: 'static>(cache: &mut ReactCache, ins: ReactorHa
     let cr = ComponentReactors{ insertion_callbacks: vi, mutation_callbacks: vm, removal_callbacks: Vec::new() };
     put2(&mut cache.component_reactors, Some((TypeId::of::<C>(), cr)), None);
 }
+pub fn broadcast_first_is_refcounted<E: 'static>(cache: &ReactCache) -> bool
+{
+    cache.broadcast_reactors.get(&TypeId::of::<E>()).and_then(|l| l.first().map(|h| matches!(h, ReactorHandle::AutoDespawn(_)))).unwrap_or(false)
+}
